@@ -10,6 +10,7 @@ package main
 
 import (
 	"fmt"
+	"strings"
 
 	"gitlab.com/gomidi/midi/v2"
 	cc "gitlab.com/gomidi/midi/v2/internal/verifh/conccases"
@@ -522,6 +523,18 @@ func textContents(part, parts int) {
 
 func constructed() {
 	texts := []string{"", "a", string(make([]byte, 127)), string(make([]byte, 128)), string(make([]byte, 20000))}
+	// texts of 1..90 characters in alphabets whose characters take two, three
+	// and four bytes, mixed ones, ASCII of every length to 300, and sequences
+	// that are cut inside a character or are no UTF-8 at all (lengths in bytes
+	// and in characters differ; whatever is shown shortened is cut somewhere)
+	for _, unit := range []string{"я", "日", "𝄞", "aя日𝄞", "é ", "\xff", "\xe6\x97", "a\xf0\x9d\x84"} {
+		for n := 1; n <= 90; n++ {
+			texts = append(texts, strings.Repeat(unit, n))
+		}
+	}
+	for n := 2; n <= 300; n++ {
+		texts = append(texts, strings.Repeat("lyric text ", n/11+1)[:n])
+	}
 	var ms []smf.Message
 	for _, s := range texts {
 		ms = append(ms, smf.MetaLyric(s), smf.MetaCopyright(s), smf.MetaCuepoint(s), smf.MetaDevice(s), smf.MetaInstrument(s), smf.MetaMarker(s),
